@@ -422,9 +422,15 @@ type history struct {
 	searchesPerExpr map[int]int
 	failedBefore    map[int]bool
 	otherDocBefore  map[int]map[int]bool
+	kept            []keptResult
 	invalidParses   int
 	validAfterBad   int
 	interesting     bool
+}
+
+type keptResult struct {
+	val   interface{}
+	shown string
 }
 
 func newHistory() *history {
@@ -473,6 +479,16 @@ func (h *history) apply(a []string) (violation, expected, got string) {
 		}
 		fresh := libCompileSearch(expr, ref.DeepCopy(orig))
 		one := libSearch(expr, ref.DeepCopy(orig))
+		// values returned earlier by this history's searches must not have changed since
+		// (a result that aliases memory which a later search overwrites)
+		for _, k := range h.kept {
+			if now := show(k.val); now != k.shown {
+				return "a value returned by an earlier Search changed when the expression was used again", k.shown, now
+			}
+		}
+		if pooled != nil && got.Err == nil && got.Panic == nil && len(h.kept) < 12 {
+			h.kept = append(h.kept, keptResult{val: got.Val, shown: show(got.Val)})
+		}
 		for _, o := range []libOut{got, fresh, one} {
 			if o.Panic != nil {
 				return "Search panicked", "", showOut(o)
